@@ -68,8 +68,12 @@ NearGray88 == [v \in 0..255 |-> NearGrayF(88, v)]
 NearCube(P, v) == IF P = 88 THEN NearCube88[v] ELSE NearCube256[v]
 NearGray(P, v) == IF P = 88 THEN NearGray88[v] ELSE NearGray256[v]
 IsCubeStep(P, v) == \E i \in 0..CubeSize(P) - 1 : CubeStep(P, i) = v
-\* a 24-bit channel at a palette depth: an exact cube step keeps its index; otherwise the statement names no rule
-Chan6(P, v) == IF IsCubeStep(P, v) THEN {i \in 0..CubeSize(P) - 1 : CubeStep(P, i) = v} ELSE 0..CubeSize(P) - 1
+\* a 24-bit channel at a palette depth ("map to the nearest entry of the 256- or 88-colour palette"): an exact cube step keeps
+\* its index; otherwise the nearest cube step of the 8-bit value, or of the value cut to its leading hex digit (the '#rgb' value
+\* 17 * (v div 16): urwid reads '#rrggbb' at a palette depth as the '#rgb' of the leading digits).  Nothing else: in particular
+\* not a colour snapped to one cube first and to the other cube afterwards.
+Chan6(P, v) == IF IsCubeStep(P, v) THEN {i \in 0..CubeSize(P) - 1 : CubeStep(P, i) = v}
+               ELSE NearCube(P, v) \cup NearCube(P, 17 * (v \div 16))
 \* 8-bit value(s) of a per-cent gray: p * 255 / 100 rounded either way
 PctVals(p) == {(p * 255) \div 100, (p * 255 + 99) \div 100}
 
